@@ -120,6 +120,62 @@ def observe(trees):
     return events
 
 
+def clause_positions(trees, events0, tier):
+    """the same trees where a statement puts them: select-list item (rendered with with_alias=True), WHERE, HAVING, JOIN ON, ORDER BY, GROUP BY,
+    SET value, INSERT value, RETURNING - the expression text found there must parse back to the tree"""
+    from pypika_tortoise import PostgreSQLQuery, Query, Table
+
+    t, u = Table("t"), Table("u")
+    BOOL = {"=", "<>", "<", "<=", ">", ">=", "AND", "OR", "XOR"}
+
+    def is_bool(x):
+        return (x["k"] == "bin" and x["op"] in BOOL) or x["k"] in ("not", "isnull", "in", "between")
+
+    def between(toks, a, b):
+        i = next(k for k, tk in enumerate(toks) if tk["t"] == "word" and tk["v"] == a and tk.get("d", 0) == 0)
+        rest = toks[i + 1:]
+        if b is None:
+            return rest
+        j = next(k for k, tk in enumerate(rest) if tk["t"] == "word" and tk["v"] == b and tk.get("d", 0) == 0)
+        return rest[:j]
+
+    def after2(toks, a, b):   # after the two-word keyword  a b
+        i = next(k for k in range(len(toks) - 1) if toks[k]["v"] == a and toks[k + 1]["v"] == b and toks[k].get("d", 0) == 0)
+        return toks[i + 2:]
+    sites = {
+        "select-item": (lambda x: Query.from_(t).select(x), lambda tk: between(tk, "SELECT", "FROM"), None),
+        "where": (lambda x: Query.from_(t).select(t.z).where(x), lambda tk: between(tk, "WHERE", None), True),
+        "having": (lambda x: Query.from_(t).select(t.z).groupby(t.z).having(x), lambda tk: between(tk, "HAVING", None), True),
+        "join-on": (lambda x: Query.from_(t).join(u).on(x).select(t.z), lambda tk: between(tk, "ON", None), True),
+        "orderby": (lambda x: Query.from_(t).select(t.z).orderby(x), lambda tk: after2(tk, "ORDER", "BY"), None),
+        "groupby": (lambda x: Query.from_(t).select(t.z).groupby(x), lambda tk: after2(tk, "GROUP", "BY"), None),
+        "set-value": (lambda x: Query.update(t).set(t.z, x), lambda tk: between(tk, "SET", None)[2:], None),
+        "returning": (lambda x: PostgreSQLQuery.into(t).insert(1).returning(x), lambda tk: between(tk, "RETURNING", None), None),
+    }
+    step = 5 if tier == "quick" else 2
+    out = []
+    ctx = core.contexts()["generic"]
+    for n, tr in enumerate(trees):
+        if n % step:
+            continue
+        for sname, (mk, span, needbool) in sites.items():
+            if needbool and not is_bool(tr):
+                continue
+            if sname == "returning" and tr["k"] == "call":
+                continue  # (RETURNING rejects function terms: C14's)
+            try:
+                obj = mk(build(tr))
+                text = obj.get_sql(ctx) if sname != "returning" else str(obj)
+            except Exception:  # noqa  (a position that does not accept this kind of term)
+                continue
+            try:
+                toks = lexer.slim(span(lexer.lex(text, "sqlite")))
+            except StopIteration:
+                continue  # (the text is cut by a comment: the bare-term rendering of this tree already reports it)
+            out.append({"tid": events0 + len(out), "tree": tr, "toks": toks, "ctxs": ["generic"], "text": text, "site": "at:" + sname})
+    return out
+
+
 def containers(events0):
     """criteria combined by the API rather than by an operator: repeated filter() / where() / having() calls, filter(c1, c2),
     Criterion.all / any.  The condition text found in the rendering must parse back to the conjunction (disjunction) of the parts."""
@@ -207,6 +263,7 @@ def run(tier: str) -> int:
     trees += operator_functions()
     events = observe(trees)
     events += containers(len(events))
+    events += clause_positions(trees, len(events), tier)
     verdicts = judge(events, rep)
     rep.traces = len(events)
     rep.evaluations = sum(len(e["ctxs"]) for e in events)
@@ -218,7 +275,9 @@ def run(tier: str) -> int:
             # alternatives: the edges where the intended design needs a bracket; a tree that fails
             # without any such edge lost or regrouped something else (signature: its root)
             sigs = sorted(list(x) for x in v["edges"]) or [["unbracketed-tree", e["tree"]["k"], e["tree"].get("op", "")]]
-            if e.get("site"):
+            if e.get("site", "").startswith("at:"):
+                sigs = sigs + [["at-position", e["site"][3:], e["tree"]["k"], e["tree"].get("op", "")]]
+            elif e.get("site"):
                 # criteria combined by the API: the parts' own bracket needs are the same edges; the combination itself is the site
                 sigs = sigs + [["combined-by", e["site"], e["tree"]["l"]["k"] + e["tree"]["l"].get("op", ""), e["tree"]["r"]["k"] + e["tree"]["r"].get("op", "")]]
             rep.discrepancy(sigs, {"tree": e["tree"], "text": e["text"], "ctxs": e["ctxs"], "why": v["why"], "site": e.get("site", "term")},
